@@ -330,4 +330,29 @@ Proof.
   intros h I HTL. apply (G ks h I 0 HTL).
 Qed.
 
+Lemma tscalm_intersect_ids : forall other l h I, TL t h I ->
+  tscalm t h I (fst (fst (intersect_ids h I other l))) (snd (fst (intersect_ids h I other l))).
+Proof.
+  intros other l. unfold intersect_ids.
+  assert (G : forall l h0 I0 c0, TL t h0 I0 ->
+     let r := fold_left (fun '(h, J, c) e => match key_of h e with
+                                 | Some k => match a_get other k with
+                                             | Some _ => (h, J, c)
+                                             | None => let '(h1, I1) := remove_entry h J e in (h1, I1, S c)
+                                             end
+                                 | None => (h, J, c) end) l (h0, I0, c0) in
+     tscalm t h0 I0 (fst (fst r)) (snd (fst r)) /\ frame t I0 (snd (fst r))).
+  { induction l0 as [|e l0 IH]; intros h0 I0 c0 HTL; [split; [apply tscalm_refl|apply frame_refl]|].
+    cbn [fold_left]. destruct (key_of h0 e) as [k|] eqn:Ek; [|apply IH; exact HTL].
+    destruct (a_get other k); [apply IH; exact HTL|].
+    pose proof (key_of_live _ _ _ Ek) as Le.
+    destruct (tl_tinv _ _ _ HTL) as (l1 & T). pose proof (ti_dom _ _ T e Le) as He. destruct (in_split _ _ He) as (a & b & ->).
+    pose proof (tscalm_remove_entry t h0 I0 e a b HTL T) as S1.
+    pose proof (remove_entry_TL t h0 I0 e HTL Le) as R.
+    destruct (remove_entry h0 I0 e) as [h1 I1]. destruct R as [HTL1 F1]. cbn [fst snd] in S1.
+    destruct (IH h1 I1 (S c0) HTL1) as [S2 F2]. cbn zeta in S2, F2.
+    split; [eapply tscalm_trans; [exact HTL|exact F2|exact S1|exact S2]|eapply frame_trans; eassumption]. }
+  intros h I HTL. apply (G l h I 0 HTL).
+Qed.
+
 End TP.
